@@ -99,8 +99,9 @@ impl CharScorer {
         let no_tag_ngrams = tag_ngram_model.iter().all(|m| m.0.is_empty());
         #[cfg(not(feature = "tag-prediction"))]
         let no_tag_ngrams = true;
-        if ngram_model.0.is_empty() && dict_model.0.is_empty() && no_tag_ngrams || window_size == 0
-        {
+        // Dictionary words do not depend on the window size, so a window size of 0 alone does
+        // not make the scorer unnecessary.
+        if ngram_model.0.is_empty() && dict_model.0.is_empty() && no_tag_ngrams {
             return Ok(None);
         }
 
